@@ -42,9 +42,17 @@ def draw_angle(rng, period):
                        math.pi / 2, -math.pi])
 
 
+# azimuths at which a direction lies exactly in a coordinate plane: detector
+# points on the grid row / column through the particle have exactly these, and
+# a particle axis in the same plane makes the solver's frame change degenerate
+PLANE_AZIMUTHS = [0.0, math.pi / 2, math.pi, 3 * math.pi / 2]
+
+
 def draw_rotation(rng, wild=True):
     if not wild:
-        return [0, rfloat(rng, 0, math.pi, 4), rfloat(rng, 0, 2 * math.pi, 4)]
+        al = (rng.choice(PLANE_AZIMUTHS) if rng.random() < 0.3
+              else rfloat(rng, 0, 2 * math.pi, 4))
+        return [0, rfloat(rng, 0, math.pi, 4), al]
     return [draw_angle(rng, 2 * math.pi), draw_angle(rng, math.pi),
             draw_angle(rng, 2 * math.pi)]
 
@@ -108,7 +116,9 @@ class C10:
         m = rng.randint(2, 12)
         dets.append({'op': 'detector_points', 'args': {'coords': {
             'theta': [rfloat(rng, 0, 1.0, 5) for _ in range(m)],
-            'phi': [rfloat(rng, 0, 2 * math.pi, 5) for _ in range(m)],
+            'phi': [rng.choice(PLANE_AZIMUTHS + [2 * math.pi])
+                    if rng.random() < 0.3 else rfloat(rng, 0, 2 * math.pi, 5)
+                    for _ in range(m)],
             'r': [rfloat(rng, 8, 40, 3) for _ in range(m)]},
             'optics': OPT}})
         ext = n * spacing
@@ -121,8 +131,14 @@ class C10:
             return dh[i]
 
         def center():
-            return [rfloat(rng, 0, ext, 3), rfloat(rng, 0, ext, 3),
-                    rfloat(rng, 5, 15, 3)]
+            c = [rfloat(rng, 0, ext, 3), rfloat(rng, 0, ext, 3),
+                 rfloat(rng, 5, 15, 3)]
+            # sometimes exactly on a grid row / column: the pixels of that
+            # row see the particle at azimuth exactly 0 or pi (pi/2, 3pi/2)
+            for ax in (0, 1):
+                if rng.random() < 0.25:
+                    c[ax] = rng.randrange(n) * spacing
+            return c
 
         for _ in range(nops):
             c = rng.random()
